@@ -264,10 +264,10 @@ pub fn c03(seed: u64, thorough: bool, tw: &mut TraceWriter) -> Cov {
 
 // ------------------------------------------------------------------------------------------ C04
 
-pub fn c04(seed: u64, thorough: bool, tw: &mut TraceWriter) -> Cov {
+pub fn c04(seed: u64, thorough: bool, maxruns: u64, nlist: &[usize], tw: &mut TraceWriter) -> Cov {
     let mut master = SmallRng::seed_from_u64(seed);
     let mut cov = Cov::default();
-    let sizes: &[usize] = if thorough { &[2, 3, 4, 5, 6, 8] } else { &[2, 3, 4, 5, 6] };
+    let sizes: &[usize] = if !nlist.is_empty() { nlist } else if thorough { &[2, 3, 4, 5, 6, 8] } else { &[2, 3, 4, 5, 6] };
     let mut run = 0u64;
     for &n in sizes {
         // latency regimes: (0) well below rtt/4  (1) round trips between rtt and (period-rtt)/2
@@ -308,6 +308,9 @@ pub fn c04(seed: u64, thorough: bool, tw: &mut TraceWriter) -> Cov {
                     let count = (m1 - m0) as usize;
                     let stride = if thorough { 1 } else { 1.max(count / if n <= 4 { 25 } else { 12 }) };
                     for d in (1..=count).step_by(stride) {
+                        if cov.runs >= maxruns {
+                            return cov;
+                        }
                         let Some(mut sim) = formed(n, &cfg, pol, cseed, lat, run, "c04", json!({"regime": regime, "drop": d}), tw) else { continue };
                         run += 1;
                         sim.drop_mids.insert(m0 + d as u64);
